@@ -10,6 +10,7 @@ For a DimAxis [i, j) (mod = period when periodic), all integers:
   opposite     IntAxis.opposite(ibound) is an involution and shifts the element by one towards the other side
   getitem      a[start:stop] keeps elements i+start .. i+stop-1 and is never periodic
 """
+import os
 import z3
 from pyvc.contract import Contract, State
 from pyvc.values import SInt, SBool, SObj, Sym, Unsupported, PyRaise, zint, zbool, pymod
@@ -38,6 +39,12 @@ def z(x):
     if isinstance(x, bool):
         return z3.IntVal(int(x))
     return zint(x)
+
+
+def _replay(call):
+    import os
+    here = os.path.dirname(os.path.dirname(os.path.abspath(__file__)))
+    return "import sys; sys.path.insert(0, %r)\nfrom native import c10\nc10.%s\n" % (here, call)
 
 
 def dimaxis(cx):
@@ -69,6 +76,9 @@ class Interfaces(Contract):
         return [('equal-lengths', z3.And(lt == lf, lt == S.j - S.i - 1 + per)), ('neighbours', nb),
                 ('sides', z3.And(z(T.attrs['side']) == 1, z(F.attrs['side']) == 0))]
 
+    def replay(self, ob):
+        return _replay('dimaxis_intaxis(%r)' % (ob.model,))
+
 
 class Boundaries(Contract):
     prop = PROP
@@ -88,6 +98,9 @@ class Boundaries(Contract):
                 ('left-face', z3.And(z(a.attrs['i']) == S.i, z(a.attrs['j']) == S.i + 1, z(a.attrs['side']) == 0)),
                 ('right-face', z3.And(z(b.attrs['i']) == S.j - 1, z(b.attrs['j']) == S.j, z(b.attrs['side']) == 1))]
 
+    def replay(self, ob):
+        return _replay('dimaxis_boundaries(%r)' % (ob.model,))
+
 
 class Refined(Contract):
     prop = PROP
@@ -100,6 +113,9 @@ class Refined(Contract):
     def ensures(self, cx, S, r):
         return [('doubles', z3.And(z(r.attrs['i']) == 2 * S.i, z(r.attrs['j']) == 2 * S.j, z(r.attrs['mod']) == 2 * S.mod,
                                    z(r.attrs['j']) - z(r.attrs['i']) == 2 * (S.j - S.i)))]
+
+    def replay(self, ob):
+        return _replay('dimaxis_refined(%r)' % (ob.model,))
 
 
 class RefinedBoundaries(Contract):
@@ -124,6 +140,9 @@ class RefinedBoundaries(Contract):
         same = lambda a, b: z3.And(*[z(a.attrs[k]) == z(b.attrs[k]) for k in ('i', 'j', 'mod', 'side', 'ibound')])
         return [('commutes-left', same(b_fine[0], ref[0])), ('commutes-right', same(b_fine[1], ref[1]))]
 
+    def replay(self, ob):
+        return _replay('intaxis_refined(%r)' % (ob.model,))
+
 
 class Opposite(Contract):
     prop = PROP
@@ -146,6 +165,9 @@ class Opposite(Contract):
         return [('shifts-to-the-other-side', z3.And(z(o.attrs['i']) == S.i + 2 * s - 1, z(o.attrs['j']) == S.j + 2 * s - 1, z(o.attrs['side']) == 1 - s)),
                 ('involution', z3.And(z(oo.attrs['i']) == S.i, z(oo.attrs['j']) == S.j, z(oo.attrs['side']) == s))]
 
+    def replay(self, ob):
+        return _replay('intaxis_opposite(%r)' % (ob.model,))
+
 
 class GetItem(Contract):
     prop = PROP
@@ -161,12 +183,42 @@ class GetItem(Contract):
         return [('subrange', z3.And(z(r.attrs['i']) == S.i + S.a, z(r.attrs['j']) == S.i + S.b, z(r.attrs['mod']) == S.mod)),
                 ('not-periodic', z3.BoolVal(r.attrs['isperiodic'] is False))]
 
+    def replay(self, ob):
+        return _replay('dimaxis_getitem(%r)' % (ob.model,))
+
+
+def _parked():
+    from contracts import c10_subset, c10_tables
+    return c10_subset.parked() + c10_tables.parked()
+
+
+# contracts that FAIL on the unchanged tree because nutils misbehaves (candidate defects, notes/C10-c10.md); kept, not weakened, and
+# left out of contracts() until the lead decides fix vs known finding.  `VERIF_C10_PARKED=1 ./check C10 --only nothing-kept` (or `--only two-elements-per-period`) runs them.
+PARKED = _parked()
+
 
 def contracts():
-    return [Interfaces(), Boundaries(), Refined(), RefinedBoundaries(), Opposite(), GetItem()]
+    from contracts import c10_structured, c10_subset, c10_tables
+    return [Interfaces(), Boundaries(), Refined(), RefinedBoundaries(), Opposite(), GetItem()] + c10_structured.contracts() + c10_subset.contracts() + c10_tables.contracts() + (PARKED if os.environ.get('VERIF_C10_PARKED') else [])
 
 
-TRUSTED = ['pyvc symbolic executor; generator DimAxis.boundaries evaluated eagerly; Axis.map as (i + ielem) mod period (proved inverse of unmap in C11)']
-ASSUMPTIONS = ['a periodic DimAxis spans exactly one period starting at 0 (how StructuredTopology builds it)']
-NOT_COVERED = ['measures, trimming, hierarchical and unstructured topologies, unions and products, connectivity tables, closedness of boundaries (flux identities): '
-               'global geometric invariants over histories of operations; outside this family']
+TRUSTED = ['pyvc symbolic executor; generator DimAxis.boundaries evaluated eagerly; Axis.map as (i + ielem) mod period (proved inverse of unmap in C11)',
+           'n-d integer array model (contracts/c10_real.py NdInt, cross-checked against numpy in native/axioms_c10.py): numpy.empty = arbitrary entries; '
+           'numpy.arange(N).reshape(shape)[ix] = row-major ravel(ix); basic indexing / stores with integers, constant-bound slices (clamped) and Ellipsis; '
+           'a store evaluates its right-hand side first; x.reshape merging consecutive axes: R[ravel(g0), ravel(g1)] = x[g0 ++ g1] (a C-contiguous array, so a view); '
+           'numpy.prod(shape, dtype=int) = the product; types.frozenarray(x, copy=False) = x',
+           'StructuredTransforms(root, axes, nrefine) is represented by its constructor arguments (todims = root.todims, fromdims = number of dimension axes); its '
+           '__init__ (child / edge transform tables) and __getitem__ are not executed; its real __len__ is. The meaning of its element q is the multi-index '
+           '(axis_l.map(q_l))_l, q decomposed row-major over the axis lengths (read off StructuredTransforms.__getitem__, not verified here)',
+           'References.uniform(ref, n) / element.getsimplex / util.product / util.sum / transformseq.chain reduced to (ndims, length); str.format of concrete arguments evaluated',
+           'decorators cached_property / property are transparent (a property is re-evaluated on every read)']
+ASSUMPTIONS = ['a periodic DimAxis spans exactly one period starting at 0 (how StructuredTopology builds it)',
+               'class invariants of the axes of a StructuredTopology: 0 <= i < j (no empty axis); mod = 0 or j - i <= mod (an axis does not wrap onto itself); '
+               'an IntAxis of a StructuredTopology is one element thick (j = i + 1) and the k-th IntAxis carries ibound = k',
+               'nrefine >= 0; bnames are the three default pairs; the unlisted bases of the axis classes (types.Singleton, object) define no attribute the code reads '
+               '(a missing attribute is an AttributeError)']
+NOT_COVERED = ['measures, trimming, hierarchical and unstructured topologies, unions and products, closedness of boundaries (flux identities): '
+               'global geometric invariants over histories of operations; outside this family',
+               'StructuredTopology with more than 3 axes (bounded), StructuredTransforms.__getitem__/index_with_tail (the transform chains themselves), '
+               'interfaces(refined(T)) versus refined(interfaces(T)) (the latter is a generic RefinedTopology), Topology.__getitem__ dispatch (str / tuple items), '
+               'basis/spline construction on structured topologies']
